@@ -117,7 +117,7 @@ chk("C04",
     "DESIGN.md section 6, C04")
 
 chk("C12",
-    "Three exhaustive explorations on the real parser: (a) every ordered pair of bounded use/definition labels (case pairs, multi-character folds, label whitespace incl. line endings, NBSP, escaped brackets; a second alphabet with NUL runs) in a document using the label as shortcut, collapsed, full reference and image - resolves iff the reference normal forms are equal and both labels valid; (b) every sequence of up to 4 segments with one use and 1-3 competing definitions (plain, in quote, in list item, nested, two in one paragraph, or inside one root container holding a tree of quotes and items with definitions at different depths) - the first in source order supplies href/title and is the map's only entry; (b') every paragraph that begins with a label and a colon followed by up to 6/7 tokens of destination, title, label, colon, text and white-space material, against a transcription of the definition grammar of spec 4.7 (number of definitions, their destinations and titles, remaining paragraph text, reference map); (b'') every flat sequence of up to 7 bracket pairs with a defined label, an undefined label and no label, inline tails, exclamation marks, text and spaces, read by spec 6.3 (inline / full / collapsed / shortcut / image / text), and every sequence of up to 8/9 openers, closers, inline tails and words with arbitrary nesting, against a transcription of the "look for link or image" procedure of the spec's appendix; (c) closure laws on all bounded inputs of four general spaces (every reference node names a map key, keys in normal form, map == fresh Extract over the blocks == streaming pipeline's map).",
+    "Three exhaustive explorations on the real parser: (a) every ordered pair of bounded use/definition labels (case pairs, multi-character folds, label whitespace incl. line endings, NBSP, escaped brackets; a second alphabet with NUL runs) in a document using the label as shortcut, collapsed, full reference and image - resolves iff the reference normal forms are equal and both labels valid; (b) every sequence of up to 4 segments with one use and 1-3 competing definitions (plain, in quote, in list item, nested, two in one paragraph, or inside one root container holding a tree of quotes and items with definitions at different depths) - the first in source order supplies href/title and is the map's only entry; (b') every paragraph that begins with a label and a colon followed by up to 6/7 tokens of destination, title, label, colon, text and white-space material, against a transcription of the definition grammar of spec 4.7 (number of definitions, their destinations and titles, remaining paragraph text, reference map); (b'') every flat sequence of up to 7 bracket pairs with a defined label, an undefined label and no label, inline tails, exclamation marks, text and spaces, read by spec 6.3 (inline / full / collapsed / shortcut / image / text), and every sequence of up to 8/9 openers, closers, inline tails and words with arbitrary nesting, against a transcription of the look-for-link-or-image procedure of the spec's appendix; (c) closure laws on all bounded inputs of four general spaces (every reference node names a map key, keys in normal form, map == fresh Extract over the blocks == streaming pipeline's map).",
     "Bounded scope (alphabet and lengths in the evidence). Reference normalisation uses a hand-written full-case-folding table for the alphabet's characters (self-tested), not x/text.",
     "exhaustive enumeration of bounded label pairs, definition placements/orders and inputs; reference-model (spec 6.3 normalisation, first-wins) comparison on the real parser",
     "DESIGN.md section 6, C12")
